@@ -651,6 +651,9 @@ def run(ctx: Ctx) -> int:
     for f in t["fams"]:
         if not byfam.get(f):
             raise MachineryError(f"family {f} produced no case (vacuous)")
+    for f in ("j2pp", "m2ll", "j3ppp", "m3ee", "j3pl", "m3le"):
+        if f in t["fams"] and not any(c["s"] == "zero-vector" for c in byfam[f]):
+            raise MachineryError(f"family {f}: no case with a zero vector among the arguments (vacuous)")
     ctx.log(f"{n} cases dumped in {len(byfam)} families")
     rng = random.Random(ctx.seed)
     jobs = []
@@ -717,6 +720,19 @@ def run(ctx: Ctx) -> int:
                 continue
             rng.shuffle(chunk)
             jobs.append(("batch", f, chunk, shape))
+        # (b') two kinds of degeneracy in one collection: a zero vector at one position, an ordinary dependence at another
+        zero = [c for c in pool_d if c["s"] == "zero-vector" and c["e"] == "LinearDependence"]
+        other = [c for c in pool_d if c["s"] != "zero-vector" and c["e"] == "LinearDependence"]
+        if prop == "C02" and zero and other and len(general) >= 6:
+            for j in range(min(24, len(zero))):
+                shape = SHAPES[j % 6]
+                m = int(np.prod(shape))
+                if m < 3 or len(general) < m:
+                    continue
+                chunk = [zero[j], other[(j * 7) % len(other)]] + general[(j * 5) % (len(general) - m + 1):][:m - 2]
+                if len(chunk) == m:
+                    rng.shuffle(chunk)
+                    jobs.append(("batch", f, chunk, shape))
         # (c) batches in which EVERY position is dependent (the mask must still have one entry per position),
         #     including collections of length 1, and (d) empty collections (no dependent position: no error)
         ALLDEP = [(1,), (3,), (2, 2), (4,), (1, 1)]
